@@ -114,3 +114,98 @@ B("C20", "bind-returns-self-when-no-symbols", (CIR, "        return type(self)(\
 T("C20", "twin-sort-a-copy", (MEAS, "        bitstrings = convert_tuples_to_bitstrings(self.bitstrings)\n        return dict(Counter(bitstrings))", "        raw = list(self.bitstrings)\n        raw.sort()\n        bitstrings = convert_tuples_to_bitstrings(raw)\n        return dict(Counter(bitstrings))"))
 T("C20", "twin-simplify-copy-then-edit", (OPS, "                    terms.append(term_list[0].copy(new_coefficient=coeff))", "                    merged = term_list[0].copy()\n                    merged.coefficient = coeff\n                    terms.append(merged)"))
 T("C20", "twin-new-memo-free-property", (OPS, "        return set(self._ops.keys())", "        qubits = set(self._ops.keys())\n        qubits.discard(-1)\n        return qubits"))
+
+# ----------------------------------------------------------------------------- C17
+NLL = "distributions/clipped_negative_log_likelihood.py"
+JS = "distributions/jensen_shannon_divergence.py"
+
+B("C17", "pop-in-subdistribution", (DIST, "new_counts[new_key] = self.distribution_dict[key] + new_counts.get(", "new_counts[new_key] = self.distribution_dict.pop(key) + new_counts.get("), rule="C17-D2")
+B("C17", "store-before-validating", (DIST, """        preprocessed_input_dict = preprocess_distibution_dict(input_dict)
+
+        if is_measurement_outcome_distribution(""", """        preprocessed_input_dict = preprocess_distibution_dict(input_dict)
+        self.distribution_dict = preprocessed_input_dict
+
+        if is_measurement_outcome_distribution("""), rule="C17-D1")
+B("C17", "store-callers-dict", (DIST, """            if is_normalized(preprocessed_input_dict):
+                self.distribution_dict = preprocessed_input_dict""", """            if is_normalized(preprocessed_input_dict):
+                self.distribution_dict = input_dict"""), rule="C17-D1")
+B("C17", "drop-nonneg-conjunct", (DIST, "        and _is_non_negative(input_dict)\n", ""), rule="C17-D1")
+B("C17", "drop-keylength-conjunct", (DIST, "        and _is_key_length_fixed(input_dict)\n", ""), rule="C17-D1")
+B("C17", "nonneg-strictness-flipped", (DIST, "    return all(value >= 0 for value in input_dict.values())", "    return any(value >= 0 for value in input_dict.values())"), rule="C17-D1")
+B("C17", "invalid-input-warns-only", (DIST, """            raise RuntimeError(
+                "Initialization of MeasurementOutcomeDistribution object FAILED: "
+                "the input dictionary is not a non-negative integer sequence "
+                "probability distribution. Check keys (same-length non-negative integer"
+                " tuples) and values (non-negative floats)."
+            )""", """            warnings.warn("input is not a valid distribution")
+            self.distribution_dict = preprocessed_input_dict"""), rule="C17-D1")
+B("C17", "normalise-branch-inverted", (DIST, "                if normalize:\n                    self.distribution_dict = normalize_measurement_outcome_distribution(", "                if not normalize:\n                    self.distribution_dict = normalize_measurement_outcome_distribution("), rule="C17-D1")
+B("C17", "js-not-symmetric", (JS, """        + compute_clipped_negative_log_likelihood(
+            measured_distribution, target_distribution, distance_measure_parameters
+        )""", """        + compute_clipped_negative_log_likelihood(
+            target_distribution, measured_distribution, distance_measure_parameters
+        )"""), rule="C17-D3")
+B("C17", "nll-consumes-epsilon", (NLL, 'epsilon = distance_measure_parameters.get("epsilon", 1e-9)', 'epsilon = distance_measure_parameters.pop("epsilon", 1e-9)'), rule="C17-D2")
+B("C17", "sorted-projection", (DIST, 'new_key = "".join(str(key[i]) for i in active_qubits)', 'new_key = "".join(str(key[i]) for i in sorted(active_qubits))'), rule="C17-D4")
+B("C17", "overwrite-instead-of-sum", (DIST, """            new_counts[new_key] = self.distribution_dict[key] + new_counts.get(
+                new_key, 0
+            )""", "            new_counts[new_key] = self.distribution_dict[key]"), rule="C17-D4")
+B("C17", "duplicate-guard-removed", (DIST, """        if len(active_qubits) != len(set(active_qubits)):
+            raise ValueError("There exist duplicate indices in the active qubit list")
+""", ""), rule="C17-D4")
+B("C17", "loader-key-renamed", (DIST, """        distribution = MeasurementOutcomeDistribution(
+            data["measurement_outcome_distribution"]
+        )""", """        distribution = MeasurementOutcomeDistribution(
+            data["outcome_distribution"]
+        )"""), rule="C17-D5")
+T("C17", "twin-js-reordered-sum", (JS, """        compute_clipped_negative_log_likelihood(
+            target_distribution, measured_distribution, distance_measure_parameters
+        )
+        / 2
+        + compute_clipped_negative_log_likelihood(
+            measured_distribution, target_distribution, distance_measure_parameters
+        )
+        / 2""", """        compute_clipped_negative_log_likelihood(
+            measured_distribution, target_distribution, distance_measure_parameters
+        )
+        / 2
+        + compute_clipped_negative_log_likelihood(
+            target_distribution, measured_distribution, distance_measure_parameters
+        )
+        / 2"""))
+T("C17", "twin-guard-as-not", (DIST, "        if is_measurement_outcome_distribution(\n            preprocessed_input_dict\n        ):  # accept the input dict only if it is a prob distribution", "        if is_measurement_outcome_distribution(preprocessed_input_dict):"))
+
+# ----------------------------------------------------------------------------- C16
+EVO = "evolution.py"
+B("C16", "one-sided-guard", (EVO, "if abs(term.coefficient.imag) > 1e-9:", "if term.coefficient.imag > 1e-9:"), rule="C16-D1")
+B("C16", "guard-after-construction", (EVO, """    if abs(term.coefficient.imag) > 1e-9:
+        raise ValueError("Coefficients of terms must be real for Trotterization.")
+
+    for i, qubit_id in enumerate(qubit_indices):""", """    if qubit_indices and term[qubit_indices[0]] == "X":
+        basis_change += H(qubit_indices[0])
+        qubit_indices = qubit_indices[1:] + qubit_indices[:1]
+    if abs(term.coefficient.imag) > 1e-9:
+        raise ValueError("Coefficients of terms must be real for Trotterization.")
+
+    for i, qubit_id in enumerate(qubit_indices):"""), rule="C16-D1")
+B("C16", "guard-warns-only", (EVO, """        raise ValueError("Coefficients of terms must be real for Trotterization.")""", """        warnings.warn("Coefficients of terms must be real for Trotterization.")"""), rule="C16-D1")
+B("C16", "time-times-steps", (EVO, "            circuit += time_evolution_for_term(term, time / n_steps)", "            circuit += time_evolution_for_term(term, time * n_steps)"), rule="C16-D2")
+B("C16", "reversed-terms", (EVO, "        for term in hamiltonian.terms:\n            circuit += time_evolution_for_term", "        for term in reversed(hamiltonian.terms):\n            circuit += time_evolution_for_term"), rule="C16-D2")
+B("C16", "inverse-on-the-left", (EVO, "circuit = basis_change + all_z_rotation + basis_change.inverse()", "circuit = basis_change.inverse() + all_z_rotation + basis_change"), rule="C16-D2")
+B("C16", "ladder-not-inverted", (EVO, "all_z_rotation = cnot_gates + central_gate + cnot_gates.inverse()", "all_z_rotation = cnot_gates + central_gate + cnot_gates"), rule="C16-D2")
+B("C16", "angle-missing-factor-two", (EVO, "central_gate = RZ(2 * time * term.coefficient.real)(qubit_id)", "central_gate = RZ(time * term.coefficient.real)(qubit_id)"), rule="C16-D2")
+B("C16", "y-basis-wrong-angle", (EVO, "basis_change += RX(np.pi / 2)(qubit_id)", "basis_change += RX(np.pi)(qubit_id)"), rule="C16-D2")
+B("C16", "unsorted-qubits", (EVO, "    qubit_indices = sorted(term.qubits)", "    qubit_indices = list(term.qubits)"), rule="C16-D2")
+B("C16", "method-guard-dropped-derivatives", (EVO, """    if method != "Trotter":
+        raise ValueError(f"The method {method} is currently not supported.")
+""", ""), rule="C16-D3")
+B("C16", "repeated-step-full-time", (EVO, "hamiltonian, time / n_steps, method=\"Trotter\", n_steps=1", "hamiltonian, time, method=\"Trotter\", n_steps=1"), rule="C16-D4")
+B("C16", "shift-uses-abs", (EVO, "shift = factor * (np.pi / (4.0 * r))", "shift = factor * (np.pi / (4.0 * abs(r)))"), rule="C16-D4")
+B("C16", "unshifted-terms-full-time", (EVO, "(time + shift) / n_steps if i == j else time / n_steps,", "(time + shift) / n_steps if i == j else time,"), rule="C16-D4")
+B("C16", "only-positive-shift", (EVO, "    factors = [1.0, -1.0]", "    factors = [1.0, 1.0]"), rule="C16-D4")
+B("C16", "splice-off-by-one", (EVO, "repeated_circuit if i != position else different_circuit", "repeated_circuit if i != position + 1 else different_circuit"), rule="C16-D4")
+T("C16", "twin-guard-isclose", (EVO, "if abs(term.coefficient.imag) > 1e-9:", "if not np.isclose(term.coefficient.imag, 0.0, atol=1e-9):"))
+T("C16", "twin-guard-mirrored", (EVO, "if abs(term.coefficient.imag) > 1e-9:", "if term.coefficient.imag > 1e-9 or term.coefficient.imag < -1e-9:"))
+T("C16", "twin-angle-reordered", (EVO, "central_gate = RZ(2 * time * term.coefficient.real)(qubit_id)", "central_gate = RZ(term.coefficient.real * time * 2.0)(qubit_id)"))
+T("C16", "twin-shift-rewritten", (EVO, "shift = factor * (np.pi / (4.0 * r))", "shift = factor * np.pi / 4 / r"))
+B("C16", "repeated-step-is-whole-evolution", (EVO, "hamiltonian, time / n_steps, method=\"Trotter\", n_steps=1", "hamiltonian, time, method=\"Trotter\", n_steps=n_steps"), rule="C16-D4")
